@@ -722,7 +722,14 @@ func goroutineDump() string {
 	return string(buf[:n])
 }
 
+// set once a run got stuck: the remaining scenarios / behaviours are skipped (each would wait for its
+// own watchdog), the check repeats the whole run once before it reports
+var abortAll int32
+
 func (h *harness) violate(kind, what string, detail interface{}) {
+	if kind == "stuck" {
+		atomic.StoreInt32(&abortAll, 1)
+	}
 	h.vmu.Lock()
 	defer h.vmu.Unlock()
 	if len(h.viols) < 20 {
